@@ -489,8 +489,8 @@ impl<'a> G<'a> {
                     }
                     3 => {
                         // keep clear of the known N7 class (>= 32 bytes) most of the time
-                        let short = self.rng.gen_range(0..32usize);
-                        let b = if len >= 32 && !self.wide { self.load(IrType::Bytes(short), 1)[0].clone() } else { b };
+                        let short = self.rng.gen_range(1..32usize);
+                        let b = if (len >= 32 || len == 0) && !self.wide { self.load(IrType::Bytes(short), 1)[0].clone() } else { b };
                         self.emit(FromBytes(IrType::JubjubScalar), vec![b], vec![(o, Ty::Scalar)]);
                     }
                     _ => {
